@@ -250,6 +250,81 @@ def directed(rng: random.Random, n: int) -> List[Input]:
 
 
 # ---------------------------------------------------------------------------------------
+# grammar coverage: small files that together reduce every alternative of every rule
+# (the directed part of the search when an obligation about a semantic action breaks)
+# ---------------------------------------------------------------------------------------
+
+COVER_MAIN = """proto cov;
+// a comment
+import "b.bitproto"
+import cc "c.bitproto";
+option c.name_prefix = "p_"
+option c.struct_packing_alignment = 0x1;
+const T = true
+const S = "s";
+const K = 2
+const R = K
+const E1 = (K + 1) * 3 - 4 / 2
+const H = 0x10
+option py.module_name = S
+type A = uint3
+typedef int5 Bt;
+typedef bool[2] Ct
+type C = bool[K]'
+type D = byte[2]
+type F = b.B[3]
+enum En : uint3 { X = 0; Y = 0x1
+  // c in enum
+
+  Z = 2
+}
+message M' { option max_bytes = 0
+  En e = 1; A a = 2
+  message N { bool type = 1 }
+  enum Q : uint1 {}
+  N n = 3
+  b.BE be = 4;
+  // c in message
+
+  cc.CC c = 5
+}
+message Empty {}
+message One { bool x = 1 }"""
+
+ITEMS = {"alias": "type T = uint3", "typedef": "typedef uint3 T", "const": "const C = 1", "proto": "proto q",
+         "import": 'import "b.bitproto"', "import-as": 'import x "b.bitproto"', "option": "option max_bytes = 3",
+         "enum": "enum F : uint2 { Q = 0 }", "message": "message N { uint3 y = 1 }", "field": "uint3 z = 2"}
+
+
+def grammar_cover() -> List[Input]:
+    out: List[Input] = []
+
+    def add(origin: str, main: str):
+        out.append({"files": {"main.bitproto": main, "b.bitproto": IMPORTED,
+                              "c.bitproto": "proto c\nmessage CC { bool x = 1 }\n"},
+                    "main": "main.bitproto", "origin": "grammar-cover:" + origin})
+
+    add("all-valid", COVER_MAIN)
+    add("all-valid-trailing-newline", COVER_MAIN + "\n")
+    for k, v in ITEMS.items():
+        add("in-enum-" + k, f"proto a\nenum E : uint3 {{\n A = 0\n {v}\n}}\n")
+        add("in-message-" + k, f"proto a\nmessage M {{\n uint3 x = 1\n {v}\n}}\n")
+        add("top-" + k, f"proto a\n{v}\n" if k not in ("field",) else f"proto a\n{v}\n")
+    add("empty-file", "")
+    add("only-proto", "proto a")
+    add("only-newline", "\n")
+    add("extensible-under-O", "proto a\nmessage M' { uint3[2]' x = 1 }\n")
+    add("bad-refs", "proto a\nconst A = Nope\n")
+    add("bad-refs-2", "proto a\nmessage M { Nope x = 1 }\n")
+    add("bad-refs-3", "proto a\nconst S = \"s\"\nconst A = S + 1\n")
+    add("bad-refs-4", "proto a\nconst S = \"s\"\nmessage M { bool[S] x = 1 }\n")
+    add("bad-refs-5", "proto a\nmessage N {}\nconst A = N\n")
+    add("bad-refs-6", "proto a\nconst N = 1\nmessage M { N x = 1 }\n")
+    add("dotted", "proto a\nimport \"b.bitproto\"\nmessage M { b.B.x.y z = 1 }\n")
+    return out
+
+
+# ---------------------------------------------------------------------------------------
 # inputs INSIDE the classes of the known findings (small, separate stream)
 # ---------------------------------------------------------------------------------------
 
